@@ -28,7 +28,8 @@ def numbers(r):
         names.append("n%d" % i)
     for _ in range(r.randint(6, 24)):
         a, b = r.choice(names), r.choice(names)
-        kind = r.choice(["eq", "cmp", "map", "lhas", "str", "arith", "parse", "round", "thas", "mapget", "truth", "nested"])
+        kind = r.choice(["eq", "cmp", "map", "lhas", "str", "arith", "parse", "round", "thas", "mapget", "truth", "nested",
+                         "mapprint"])
         if kind == "eq":
             lines.append("print(%s == %s, %s != %s);" % (a, b, a, b))
         elif kind == "cmp":
@@ -37,6 +38,12 @@ def numbers(r):
             lines.append("if true { let m = {}; m[%s] = 1; print(m.has(%s), m.len()); m[%s] = 2; print(m.len()); }" % (a, b, b))
         elif kind == "mapget":
             lines.append("if true { let m = {%s: 'a'}; print(m.get(%s), m.remove(%s), m.len()); }" % (a, b, a))
+        elif kind == "mapprint":
+            # iteration order of a map keyed by scalars is a function of the keys alone, so it is part of the
+            # program's behaviour in both builds (maps keyed by objects are ordered by address and never printed)
+            keys = [r.choice(names + ["true", "false", "nil", str(r.randint(0, 40)), "%d.5" % r.randint(0, 9)]) for _ in range(r.randint(2, 9))]
+            lines.append("if true { let m = {}; %s print(m); for kv in m { print(kv[0]); } }" % " ".join(
+                "m[%s] = %d;" % (key, number) for number, key in enumerate(keys)))
         elif kind == "lhas":
             lines.append("print([%s, 1].has(%s), [%s].index(%s));" % (a, b, a, b))
         elif kind == "thas":
